@@ -516,6 +516,8 @@ def case_replay_schedule(acc, desc, choices):
         sc = RefsScenario(desc[1], [[tuple(o) for o in p] for p in desc[2]])
     elif kind == "commit":
         sc = CommitScenario(*desc[1:])
+    elif kind == "memcommit":
+        sc = MemCommitScenario(*desc[1:])
     else:
         raise HarnessError("unknown scenario kind")
     exp = sysched.Explorer(sc, 99)
@@ -648,6 +650,14 @@ def run(ctx):
         for k in range(nsh):
             ctasks.append((3, "tip", 2, (k, nsh)))
     pmap_acc(work_commit, ctx.order(ctasks), ctx.acc, jobs=ctx.jobs)
+    mtasks = []
+    for start in ("tip", "unborn"):
+        for k in range(nsh):
+            mtasks.append((2, start, 2, (k, nsh)))
+    if not q:
+        for k in range(nsh):
+            mtasks.append((3, "tip", 1, (k, nsh)))
+    pmap_acc(work_memcommit, ctx.order(mtasks), ctx.acc, jobs=ctx.jobs)
     n = ctx.acc.n
     ctx.level = "model_checking"
     ctx.coverage.update(
@@ -677,3 +687,107 @@ def replay(ctx, obj):
     from engines.common import replay_generic
 
     return replay_generic(sys.modules[__name__], ctx, obj)
+
+
+# --------------------------------------------------------------------------- in-memory commits (threads, line granularity)
+
+_MEM = {}
+
+
+class MemCommitScenario(sysched.Scenario):
+    """n threads share ONE MemoryRepo and each call do_commit(ref=refs/heads/m) from the same tip.  Scheduling
+    points are the source lines executed inside dulwich/refs.py and inside BaseRepo/MemoryRepo.do_commit."""
+
+    def __init__(self, nactors, start):
+        import dulwich.refs
+        import dulwich.repo
+
+        self.nactors = nactors
+        self.start = start
+        self.name = "commit[memory,%s]x%d" % (start, nactors)
+        # scheduling points: the lines of the ref container's methods (the commit code between the read of the
+        # branch and the compare-and-swap touches nothing shared, so preempting there is equivalent to preempting
+        # at the last line of the read); any lock the container uses becomes a cooperative lock
+        self.trace_files = {dulwich.refs.__file__}
+        self.trace_functions = {"set_if_equals", "add_if_new", "remove_if_equals", "__getitem__", "follow",
+                                "read_ref", "read_loose_ref", "__setitem__"}
+        dulwich.refs.threading = sysched.coop_threading
+
+    def setup(self, root):
+        pass
+
+    def begin(self, ex, ctl, root):
+        from dulwich.objects import Blob, Commit, Tree
+        from dulwich.repo import MemoryRepo
+
+        r = MemoryRepo()
+        b = Blob.from_string(b"hello\n")
+        t = Tree()
+        t.add(b"a", 0o100644, b.id)
+        r.object_store.add_object(b)
+        r.object_store.add_object(t)
+        trees = []
+        for i in range(self.nactors):
+            bi = Blob.from_string(b"actor %d\n" % i)
+            ti = Tree()
+            ti.add(b"a", 0o100644, bi.id)
+            r.object_store.add_object(bi)
+            r.object_store.add_object(ti)
+            trees.append(ti.id)
+        if self.start == "tip":
+            c = Commit()
+            c.tree = t.id
+            c.author = c.committer = b"A <a@example.com>"
+            c.author_time = c.commit_time = 1000000000
+            c.author_timezone = c.commit_timezone = 0
+            c.message = b"base\n"
+            r.object_store.add_object(c)
+            r.refs[M] = c.id
+        ex.extra["repo"] = r
+        ex.extra["trees"] = trees
+
+    def actor(self, i, root, rec):
+        r = rec.ex.extra["repo"]
+        rec("call", i)
+        try:
+            cid = r.do_commit(message=b"commit by %d\n" % i, tree=rec.ex.extra["trees"][i], ref=M,
+                              committer=b"C%d <c@example.com>" % i, author=b"C%d <c@example.com>" % i,
+                              commit_timestamp=1000000100 + i, commit_timezone=0)
+            rec("ret", cid)
+        except Exception as e:
+            rec("exc", "%s: %s" % (type(e).__name__, str(e)[:80]))
+
+    def check(self, ex, root):
+        r = ex.extra["repo"]
+        out = []
+        try:
+            tip = r.refs[M]
+        except KeyError:
+            tip = None
+        anc = set()
+        todo = [tip] if tip else []
+        while todo:
+            c = todo.pop()
+            if c in anc:
+                continue
+            anc.add(c)
+            todo.extend(r[c].parents)
+        ok_ids = [(a, p) for a, k, p, _ in ex.history if k == "ret"]
+        errs = [(a, p) for a, k, p, _ in ex.history if k == "exc"]
+        for a, cid in ok_ids:
+            if cid not in anc:
+                out.append(("commit:memory:successful-commit-not-in-branch-history",
+                            "%s: actor %d's commit was reported successful but is not an ancestor of the final tip (successful: %r, errors: %r)" % (
+                                self.name, a, [x[0] for x in ok_ids], errs)))
+                break
+        ex.extra["outcome"] = "mem ok=%r errs=%r" % (sorted(a for a, _ in ok_ids), sorted((a, e.split(":")[0]) for a, e in errs))
+        return out
+
+
+def work_memcommit(task):
+    acc = Acc()
+    nactors, start, bound, shard = task
+    sc = MemCommitScenario(nactors, start)
+    st = sysched.explore_scenario(sc, bound, shard=shard)
+    absorb(acc, st, ("memcommit", nactors, start))
+    return acc
